@@ -36,6 +36,10 @@ PROGRAMS = [
     ("SELECT kind, sum(amount) AS s, count(amount) AS n FROM orders WHERE qty IS NULL GROUP BY kind", ["kind"], ["s", "n"]),
     ("SELECT sum(bal) AS b, avg(bal) AS m FROM orders", [], ["b", "m"]),
     ("SELECT kind, sum(bal) AS b FROM orders GROUP BY kind", ["kind"], ["b"]),
+    # two public keys; a column with a range far below 1
+    ("SELECT kind, flag, sum(amount) AS s, count(amount) AS n FROM orders GROUP BY kind, flag", ["kind", "flag"], ["s", "n"]),
+    ("SELECT u.city AS city, o.kind AS kind, sum(o.amount) AS s FROM orders AS o JOIN users AS u ON o.user_id = u.id GROUP BY u.city, o.kind", ["city", "kind"], ["s"]),
+    ("SELECT sum(frac) AS f, avg(frac) AS m FROM orders", [], ["f", "m"]),
     # outer join along the privacy-unit path: units without orders keep their (padded) row
     ("SELECT sum(u.age) AS s, count(u.age) AS n FROM users AS u LEFT JOIN orders AS o ON u.id = o.user_id", [], ["s", "n"]),
     ("SELECT u.city AS city, count(u.age) AS n FROM users AS u LEFT JOIN orders AS o ON u.id = o.user_id GROUP BY u.city", ["city"], ["n"]),
